@@ -312,6 +312,11 @@ def first_histories(ctx, specs):
                              f"{len(got[1])} events / status {got[0]}, not the {len(want)} events its source gives under spec {sk}"))
                 else:
                     ctx.nt(("first-history", tuple(map(tuple, hist)), step, kname))
+            for sk, S in specs.items():
+                snap, hsh = w.spec_snap[sk]
+                if not (S == snap) or hash(S) != hsh or S.layout.static_traps.keys() != snap.layout.static_traps.keys():
+                    ctx.fail({"kind": "spec-modified", "spec": sk, "first": True}, rep, f"after step {step} {h}: spec {sk} was modified")
+                    w.spec_snap[sk] = (copy.deepcopy(S), hash(S))
     ctx.count("observations in histories run before the check interprets any shared subroutine itself", n)
 
 
